@@ -68,7 +68,7 @@ def refactors_table() -> str:
 
         rows.append(f"| {d.name} ({m.get('wave', 1)}) | {(m.get('title') or '').replace('|', '/')[:160]} | {files} | "
                     f"{short(m.get('verdict_at_arrival'))} | {short(m.get('verdict'))} |")
-    n_arr = {1: [0, 0], 2: [0, 0], 3: [0, 0]}
+    n_arr = {1: [0, 0], 2: [0, 0], 3: [0, 0], 4: [0, 0]}
     for d in sorted(rdir.iterdir()):
         mp = d / "meta.json"
         if mp.exists():
@@ -104,17 +104,21 @@ def findings_table() -> str:
 
 
 def waves_table() -> str:
-    waves = ("w1", "w2", "w3")
+    waves = ("w1", "w2", "w3", "w4")
+
+    def wave_of(n: int) -> str:
+        return "w1" if n <= 3 else "w2" if n <= 6 else "w3" if n <= 9 else "w4"
+
     per: dict[str, dict[str, list[int]]] = {}
     unreported = []
     other_only = []
-    for d in sorted((V / "seeded").iterdir()):
+    for d in sorted((V / "seeded").iterdir(), key=lambda x: (x.name.split("-")[0], int(x.name.split("-")[1]) if "-" in x.name and x.name.split("-")[1].isdigit() else 0)):
         mp = d / "meta.json"
         if not mp.exists():
             continue
         m = json.loads(mp.read_text())
         prop, n = d.name.split("-")
-        wave = waves[min((int(n) - 1) // 3, 2)]
+        wave = wave_of(int(n))
         cb = [c["property"] for c in m.get("caught_by", [])]
         arr = m.get("caught_by_at_arrival")
         row = per.setdefault(prop, {w: [0, 0, 0, 0, 0] for w in waves})
@@ -127,17 +131,16 @@ def waves_table() -> str:
             unreported.append(f"* **{d.name}** — {(m.get('title') or '')[:200]}")
         elif prop not in cb:
             other_only.append(f"{d.name} ({', '.join(cb)})")
-    rows = ["| property | round 1 (now: own / any of 3) | round 2 at arrival (own / any) | round 2 now (own / any) | round 3 at arrival (own / any) | round 3 now (own / any) |",
-            "|---|---|---|---|---|---|"]
+    rows = ["| property | round 1 now (own / any) | round 2 at arrival | round 2 now | round 3 at arrival | round 3 now | round 4 at arrival | round 4 now |",
+            "|---|---|---|---|---|---|---|---|"]
     tot = {w: [0, 0, 0, 0, 0] for w in waves}
     for prop, r in sorted(per.items()):
-        rows.append(f"| {prop} | {r['w1'][1]} / {r['w1'][2]} | {r['w2'][3]} / {r['w2'][4]} | {r['w2'][1]} / {r['w2'][2]} | "
-                    f"{r['w3'][3]} / {r['w3'][4]} | {r['w3'][1]} / {r['w3'][2]} |")
+        rows.append(f"| {prop} | {r['w1'][1]} / {r['w1'][2]} | " + " | ".join(f"{r[w][3]} / {r[w][4]} | {r[w][1]} / {r[w][2]}" for w in waves[1:]) + " |")
         for w in waves:
             for i in range(5):
                 tot[w][i] += r[w][i]
-    rows.append(f"| **all** | **{tot['w1'][1]} / {tot['w1'][2]}** of {tot['w1'][0]} | **{tot['w2'][3]} / {tot['w2'][4]}** of {tot['w2'][0]} | "
-                f"**{tot['w2'][1]} / {tot['w2'][2]}** | **{tot['w3'][3]} / {tot['w3'][4]}** of {tot['w3'][0]} | **{tot['w3'][1]} / {tot['w3'][2]}** |")
+    rows.append(f"| **all** | **{tot['w1'][1]} / {tot['w1'][2]}** of {tot['w1'][0]} | "
+                + " | ".join(f"**{tot[w][3]} / {tot[w][4]}** of {tot[w][0]} | **{tot[w][1]} / {tot[w][2]}**" for w in waves[1:]) + " |")
     out = "\n".join(rows)
     out += "\n\nReported only by the check of another property: " + ("; ".join(other_only) if other_only else "none") + "."
     out += "\n\nNot reported by any check:\n\n" + ("\n".join(unreported) if unreported else "(none)")
